@@ -50,6 +50,10 @@ func H_QuoteVerbatim() {
 	}
 	w := string(wb)
 	rtAssume(utf8.ValidString(w))
+	if rtParam("CTXV") == 1 {
+		quoteUnderDefaultField(w, "\""+w+"\"")
+		return
+	}
 	text := "f:\"" + w + "\""
 	e, err := lucene.Parse(text)
 	rtAssert("quoted-parses", err == nil && e != nil)
@@ -86,6 +90,43 @@ func H_QuoteVerbatim() {
 	rtReach("end")
 }
 
+// quoteUnderDefaultField: the same clause for a free-standing term under an operator, scoped by a
+// default field: a:b AND <written> must give F = w in the tree, the inline constant and the
+// parameter list.
+func quoteUnderDefaultField(w, written string) {
+	text := "a:b AND " + written
+	rtObserve("query", text)
+	e, err := lucene.Parse(text, lucene.WithDefaultField("F"))
+	rtAssert("quoted-parses", err == nil && e != nil)
+	if err != nil || e == nil {
+		return
+	}
+	r := asExpr(e.Right)
+	rtAssert("quoted-tree-verbatim", e.Op == expr.And && r != nil && r.Op == expr.Equals && rtAnd(litColumn(r.Left, "F"), litString(r.Right, w)))
+	sql, rerr := lucene.ToPostgres(text, lucene.WithDefaultField("F"))
+	rtAssert("quoted-renders", rerr == nil)
+	if rerr == nil {
+		rtObserve("sql", sql)
+		ast, _, okp := pgParse(sql)
+		okp = okp && ast.kind == qAnd && ast.b.kind == qCmp && ast.b.op == "=" && ast.b.a.kind == qCol && ast.b.b.kind == qStr
+		rtAssert("quoted-sql-shape", okp && ast.b.a.text == "F")
+		if okp {
+			rtAssert("quoted-sql-constant-verbatim", ast.b.b.text == w)
+		}
+	}
+	_, params, perr := lucene.ToParameterizedPostgres(text, lucene.WithDefaultField("F"))
+	rtAssert("quoted-param-renders", perr == nil)
+	if perr == nil {
+		ok := len(params) == 2
+		if ok {
+			s, isStr := params[1].(string)
+			ok = isStr && s == w
+		}
+		rtAssert("quoted-param-verbatim", ok)
+	}
+	rtReach("end")
+}
+
 const plainWordCls = "ABCDEFGHIJKLMNOPQRSTUVWXYZabcdefghijklmnopqrstuvwxyz0123456789_"
 
 // H_EscapeVerbatim (C08, escaping clause): a non-numeric text written as a bare word with a
@@ -114,6 +155,21 @@ func H_EscapeVerbatim() {
 			}
 		}
 	}
+	if rtParam("MB") == 1 { // one multi-byte character in the middle: a letter stays as it is, anything else is escaped
+		mb := []string{"\xc3\xa9", "\xe2\x80\x94", "\xe2\x82\xac", "\xc2\xa7", "\xf0\x9f\x98\x80"}[rtChoose("mb", 5)]
+		isLetter := mb == "\xc3\xa9"
+		var t2, w2 []byte
+		t2 = append(t2, 'x')
+		w2 = append(w2, 'x')
+		if !isLetter {
+			t2 = append(t2, '\\')
+		}
+		t2 = append(t2, mb...)
+		w2 = append(w2, mb...)
+		t2 = append(t2, text...)
+		w2 = append(w2, wb...)
+		text, wb = t2, w2
+	}
 	w := string(wb)
 	// AND / OR / NOT / TO are keywords, not bare words
 	up := strings.ToUpper(w)
@@ -123,6 +179,10 @@ func H_EscapeVerbatim() {
 	}
 	if hasBackslash {
 		rtTag("escaped-backslash")
+	}
+	if rtParam("CTXV") == 1 {
+		quoteUnderDefaultField(w, string(text))
+		return
 	}
 	q := "f:" + string(text)
 	rtObserve("query", q)
